@@ -113,7 +113,7 @@ def check(cx):
                      'sets from the old to the new nick', loc=fr)
     fn_ = cx.fn('process_nick')
     wn = cx.walk(fn_, args=[SELF, CONN, P('nick'), P('msg')], key='c02')
-    ren = [(e, x) for e, x in effects(wn, prog) if x['op'] == 'rename_user']
+    ren = [(e, x) for e, x in effects(wn, prog) if x['op'] == 'rename_user' and (e.data.get('callee') or '').endswith('structs::Channel::rename_user')]
     r3.instance('process_nick renames in every channel of the user')
     okn = False
     for e, x in ren:
